@@ -237,6 +237,24 @@ def runSeg (st : Strategy) (k : Nat) (s : SegIn) : List Hit :=
   | .wand => wandLoop k false s.sc s.terms
   | .bmw => wandLoop k true s.sc s.terms
 
+/-! ## where the bounds come from -/
+
+/-- contribution of term `t` to document `d` (0 when absent) -/
+def Term.contrib (t : Term) (d : Nat) : Nat :=
+  match t.posts.find? (fun p => p.1 == d) with
+  | some p => p.2
+  | none => 0
+
+/-- plain BM25 score of a document: the sum over the terms (`score_sum` in `wand_loop`) -/
+def sumContrib (ts : List Term) (d : Nat) : Nat :=
+  match ts with
+  | [] => 0
+  | t :: r => t.contrib d + sumContrib r d
+
+/-- every posting is dominated by the bound of its term (`upper_bound_tf` of the maximal tf and
+the minimal length dominates `score_tf` of any posting) -/
+def validBounds (ts : List Term) : Bool := ts.all fun t => t.posts.all fun p => decide (p.2 ≤ t.ub)
+
 /-- strictly increasing -/
 def incr : List Nat → Bool
   | [] => true
